@@ -10,6 +10,7 @@ import (
 	"encoding/json"
 	"fmt"
 	"net/http"
+	"sort"
 	"strings"
 	"sync"
 	"sync/atomic"
@@ -116,6 +117,10 @@ func (x *exchange) requestBytes(host string) []byte {
 		b.Write(bytes.Repeat([]byte{'q'}, x.ReqBodyLen))
 	}
 	return b.Bytes()
+}
+
+func (x *exchange) headerOnly() bool {
+	return x.Method == "HEAD" || x.Status == 204 || x.Status == 304
 }
 
 // reqClose mirrors net/http's shouldClose for the client's request.
@@ -261,7 +266,7 @@ type modelResp struct {
 	Minor     int
 	Status    int
 	Reason    string
-	Framing   string // none | cl:<n> | chunked:<…> | eof | unframed | unterminated
+	Framing   string // none | cl:<n> | chunked:<…> | eof
 	Body      string // same | gunzip | dropped
 	KeepAlive bool
 	Fields    map[string][]string
@@ -276,7 +281,7 @@ func askModel(m *core.Model, rules []string, x *exchange) modelResp {
 		}
 		fs = append(fs, core.JoinList([]string{core.HexS(f.Name), core.HexS(v)}))
 	}
-	ans := m.MustAsk("RESP", "process", "method="+core.HexS(x.Method), "reqclose="+core.B01(x.reqClose()),
+	ans := m.MustAsk("RESP", "process", "method="+core.HexS(x.Method), "reqminor="+core.Itoa(x.ReqMinor), "reqclose="+core.B01(x.reqClose()),
 		"gzip="+core.B01(x.solicitedGzip()), "rules="+core.HexList(rules), "minor="+core.Itoa(x.Minor),
 		"status="+core.Itoa(x.Status), "reason="+core.HexS(x.Reason), "fields="+core.JoinList2(fs))
 	f := strings.Fields(ans)
@@ -308,7 +313,11 @@ type oneEx struct {
 	Exchange *exchange `json:"exchange"`
 }
 
-func knownClass(x *exchange) string {
+// regressionShape names the input shapes of the three defects that were repaired in the tree (F1, F22,
+// F18). They are no known-finding classes any more: a failure on one of them is a VIOLATION like any
+// other. The name is used for the input-distribution histogram only, so that every run shows how often
+// the shapes were exercised.
+func regressionShape(x *exchange) string {
 	hasTrailerDecl := false
 	for _, f := range x.Fields {
 		if strings.EqualFold(f.Name, "Trailer") {
@@ -318,13 +327,34 @@ func knownClass(x *exchange) string {
 	headerOnly := x.Method == "HEAD" || x.Status == 204 || x.Status == 304
 	switch {
 	case headerOnly && x.Framing == "chunked" && x.Minor == 1 && hasTrailerDecl:
-		return "header-only-with-trailers" // F1
-	case !headerOnly && x.Gzip && x.solicitedGzip() && !(x.Framing == "chunked" && x.Minor == 1):
-		return "solicited-gzip-with-length" // F22 (also covers the variants that end in a close)
+		return "header-only-with-trailers" // was F1
+	case !headerOnly && x.Gzip && x.solicitedGzip() && x.ReqMinor == 0:
+		return "solicited-gzip-http10-client/" + x.Framing // was F22 ∧ F18
+	case !headerOnly && x.Gzip && x.solicitedGzip():
+		return "solicited-gzip/" + x.Framing + fmt.Sprintf("/origin-1.%d", x.Minor) // was F22
 	case !headerOnly && x.ReqMinor == 0 && x.Framing == "chunked" && x.Minor == 1:
-		return "http10-client-chunked" // F18
+		if len(x.Trailers) > 0 {
+			return "http10-client-chunked/trailers" // was F18
+		}
+		return "http10-client-chunked" // was F18
 	}
 	return ""
+}
+
+// canonTrailerLine: martian's header-only writer lists the keys of res.Trailer in Go map order; the
+// model lists them sorted. Both sides are compared with the names of every `Trailer` value sorted.
+func canonTrailerLine(fm map[string][]string) {
+	vs, ok := fm["trailer"]
+	if !ok {
+		return
+	}
+	out := make([]string, len(vs))
+	for i, v := range vs {
+		names := strings.Split(v, ", ")
+		sort.Strings(names)
+		out[i] = strings.Join(names, ", ")
+	}
+	fm["trailer"] = out
 }
 
 func (e *env) runConn(ctx *core.Ctx, cc *connCase) {
@@ -361,17 +391,15 @@ func (e *env) runConn(ctx *core.Ctx, cc *connCase) {
 		if x.Gzip {
 			ctx.Count("gzip/" + map[bool]string{true: "solicited", false: "client-asked"}[x.solicitedGzip()])
 		}
-		class := knownClass(x)
+		if sh := regressionShape(x); sh != "" {
+			ctx.Count("regression-shape/" + sh)
+		}
 
 		if err := c.Send(x.requestBytes("origin.test"), nil); err != nil {
 			ctx.Disagree("client can send the next request on a kept-alive connection", one, err.Error(), "open")
 			return
 		}
-		timeout := 8 * time.Second
-		if mr.Kind == "ok" && (mr.Framing == "unterminated" || mr.Framing == "unframed") {
-			timeout = 700 * time.Millisecond // known-bad framings: the parser cannot finish
-		}
-		res, rerr := c.ReadResponse(x.Method, timeout)
+		res, rerr := c.ReadResponse(x.Method, 8*time.Second)
 		impl := describe(res, rerr)
 		if mr.Kind == "badgateway" {
 			if res == nil || res.Status != 502 {
@@ -382,51 +410,39 @@ func (e *env) runConn(ctx *core.Ctx, cc *connCase) {
 		}
 		// ---- correspondence with the model ----
 		var diffs []string
-		bad := false
-		switch mr.Framing {
-		case "unterminated":
-			if rerr == nil {
-				diffs = append(diffs, "model: head never terminated; implementation produced a complete message")
+		if rerr != nil || res == nil {
+			diffs = append(diffs, "response does not parse: "+impl)
+		} else {
+			if res.Status != mr.Status {
+				diffs = append(diffs, fmt.Sprintf("status %d want %d", res.Status, mr.Status))
 			}
-			bad = true
-		case "unframed":
-			// the parser reads to a timeout (or swallows later bytes)
-			if rerr == nil {
-				diffs = append(diffs, "model: body has no framing and the connection stays open; implementation produced a complete message")
+			if res.Reason != mr.Reason {
+				diffs = append(diffs, fmt.Sprintf("reason %q want %q", res.Reason, mr.Reason))
 			}
-			bad = true
-		}
-		if !bad {
-			if rerr != nil || res == nil {
-				diffs = append(diffs, "response does not parse: "+impl)
-			} else {
-				if res.Status != mr.Status {
-					diffs = append(diffs, fmt.Sprintf("status %d want %d", res.Status, mr.Status))
-				}
-				if res.Reason != mr.Reason {
-					diffs = append(diffs, fmt.Sprintf("reason %q want %q", res.Reason, mr.Reason))
-				}
-				if want := fmt.Sprintf("HTTP/1.%d", mr.Minor); res.Proto != want {
-					diffs = append(diffs, fmt.Sprintf("proto %q want %q", res.Proto, want))
-				}
-				of := res.FieldMap()
-				for _, k := range reqmodel.DiffFields(of, mr.Fields) {
-					diffs = append(diffs, fmt.Sprintf("field %s: got %q want %q", k, of[k], mr.Fields[k]))
-				}
-				wantFr := strings.SplitN(mr.Framing, ":", 2)[0]
-				if res.Framing != wantFr {
-					diffs = append(diffs, fmt.Sprintf("framing %s want %s", res.Framing, wantFr))
-				}
-				var wantBody []byte
-				switch mr.Body {
-				case "same":
-					wantBody = x.wireBody()
-				case "gunzip":
-					wantBody = x.body()
-				}
-				if !bytes.Equal(res.Body, wantBody) {
-					diffs = append(diffs, fmt.Sprintf("body %dB want %dB", len(res.Body), len(wantBody)))
-				}
+			if want := fmt.Sprintf("HTTP/1.%d", mr.Minor); res.Proto != want {
+				diffs = append(diffs, fmt.Sprintf("proto %q want %q", res.Proto, want))
+			}
+			of := res.FieldMap()
+			if x.headerOnly() {
+				canonTrailerLine(of)
+				canonTrailerLine(mr.Fields)
+			}
+			for _, k := range reqmodel.DiffFields(of, mr.Fields) {
+				diffs = append(diffs, fmt.Sprintf("field %s: got %q want %q", k, of[k], mr.Fields[k]))
+			}
+			wantFr := strings.SplitN(mr.Framing, ":", 2)[0]
+			if res.Framing != wantFr {
+				diffs = append(diffs, fmt.Sprintf("framing %s want %s", res.Framing, wantFr))
+			}
+			var wantBody []byte
+			switch mr.Body {
+			case "same":
+				wantBody = x.wireBody()
+			case "gunzip":
+				wantBody = x.body()
+			}
+			if !bytes.Equal(res.Body, wantBody) {
+				diffs = append(diffs, fmt.Sprintf("body %dB want %dB", len(res.Body), len(wantBody)))
 			}
 		}
 		if len(diffs) > 0 {
@@ -436,13 +452,9 @@ func (e *env) runConn(ctx *core.Ctx, cc *connCase) {
 		}
 		// ---- the property evaluated directly ----
 		for _, v := range specViolations(cc.Rules, x, res, rerr) {
-			cl := v.class
-			if cl == "" && v.clause == framingClause {
-				cl = class // F1 / F18 / F22 explain a framing failure and nothing else
-			}
-			ctx.SpecFail(v.clause, cl, one, impl, v.detail)
+			ctx.SpecFail(v.clause, v.class, one, impl, v.detail)
 		}
-		if bad || rerr != nil {
+		if rerr != nil {
 			return
 		}
 		// connection state after the response
@@ -450,10 +462,10 @@ func (e *env) runConn(ctx *core.Ctx, cc *connCase) {
 			closed, extra := c.ExpectClosed(3 * time.Second)
 			if !closed {
 				ctx.Disagree("connection is closed after a response that says so", one, "still open", "closed")
-				ctx.SpecFail("a response without keep-alive framing ends with the connection", class, one, impl, "connection left open")
+				ctx.SpecFail("a response without keep-alive framing ends with the connection", "", one, impl, "connection left open")
 			}
 			if len(extra) > 0 {
-				ctx.SpecFail("no bytes of one message leak into the next", class, one, impl, fmt.Sprintf("%d stray bytes after the response", len(extra)))
+				ctx.SpecFail("no bytes of one message leak into the next", "", one, impl, fmt.Sprintf("%d stray bytes after the response", len(extra)))
 			}
 			return
 		}
@@ -590,7 +602,8 @@ func specViolations(rules []string, x *exchange, res *rig.Msg, rerr error) []vio
 		if !bytes.Equal(res.Body, want) {
 			add("same body bytes (gzip undone only when the proxy solicited it)", "", fmt.Sprintf("%dB vs %dB", len(res.Body), len(want)))
 		}
-		if x.Framing == "chunked" && x.Minor == 1 {
+		// trailers travel in a chunked body only: an HTTP/1.0 client gets the body close-delimited and no trailers
+		if x.Framing == "chunked" && x.Minor == 1 && x.ReqMinor >= 1 {
 			gotT := (&rig.Msg{Fields: res.Trailers}).FieldMap()
 			// every trailer field the origin sent (net/http forwards undeclared ones as well)
 			wantT := (&rig.Msg{Fields: x.Trailers}).FieldMap()
@@ -630,15 +643,36 @@ func genVal(r *core.Rand) string {
 	return strings.TrimSpace(b.String())
 }
 
+// Shapes of the defects repaired in the tree (regression targets); about one exchange in six is steered
+// towards one of them, the rest of the exchange stays random:
+//
+//	ho-trailer      HEAD/204/304 answered with Transfer-Encoding: chunked + Trailer (1-3 names)   (F1)
+//	gz-solicited    gzip the transport solicited itself, with Content-Length / close-delimited / chunked   (F22)
+//	http10-chunked  HTTP/1.0 client, chunked HTTP/1.1 origin response, often with trailers   (F18)
+//	http10-gz       HTTP/1.0 keep-alive client and solicited gzip (F18 and F22 together)
+var shapes = []string{"ho-trailer", "gz-solicited", "gz-solicited", "http10-chunked", "http10-gz"}
+
+var bodyStatuses = []int{200, 200, 200, 201, 206, 404, 500, 503}
+
 func genExchange(r *core.Rand, last bool) *exchange {
 	x := &exchange{ID: fmt.Sprintf("x%d-%x", idSeq.Add(1), r.U64()&0xffffff), ReqMinor: 1, Minor: 1, OriginKeep: true}
+	shape := ""
+	if r.Chance(16) {
+		shape = core.Pick(r, shapes)
+	}
 	x.Method = core.Pick(r, []string{"GET", "GET", "GET", "HEAD", "POST"})
+	switch shape {
+	case "ho-trailer":
+		x.Method = core.Pick(r, []string{"HEAD", "GET", "POST"})
+	case "gz-solicited", "http10-chunked", "http10-gz":
+		x.Method = core.Pick(r, []string{"GET", "GET", "POST"})
+	}
 	if x.Method == "POST" {
 		x.ReqBodyLen = core.Pick(r, []int{0, 1, 100, 5000})
 	}
-	if r.Chance(12) {
+	if r.Chance(12) || shape == "http10-chunked" || shape == "http10-gz" {
 		x.ReqMinor = 0
-		if !last || r.Chance(50) {
+		if !last || r.Chance(50) || shape == "http10-gz" {
 			x.ReqConn = "keep-alive"
 		}
 	} else if last && r.Chance(25) {
@@ -648,12 +682,25 @@ func genExchange(r *core.Rand, last bool) *exchange {
 		x.SendAE = true
 		x.AcceptEnc = core.Pick(r, []string{"gzip", "gzip, br", "identity", "deflate"})
 	}
+	if shape == "gz-solicited" || shape == "http10-gz" {
+		// no Accept-Encoding, or an empty one: the transport adds `Accept-Encoding: gzip` itself
+		x.SendAE = r.Chance(20)
+		x.AcceptEnc = ""
+	}
 	x.Status = core.Pick(r, statuses)
+	switch shape {
+	case "ho-trailer":
+		if x.Method != "HEAD" {
+			x.Status = core.Pick(r, []int{204, 304})
+		}
+	case "gz-solicited", "http10-chunked", "http10-gz":
+		x.Status = core.Pick(r, bodyStatuses)
+	}
 	x.Reason = reasons[x.Status]
 	if r.Chance(15) {
 		x.Reason = core.Pick(r, []string{"Fine", "Custom Reason Phrase", "OK OK", "", "Weird-Reason_1"})
 	}
-	if r.Chance(8) {
+	if r.Chance(8) && shape != "http10-chunked" && shape != "ho-trailer" || shape == "gz-solicited" && r.Chance(15) {
 		x.Minor = 0
 	}
 	x.Fields = append(x.Fields, rig.Field{Name: "X-Echo-Id", Value: x.ID})
@@ -680,20 +727,31 @@ func genExchange(r *core.Rand, last bool) *exchange {
 	if r.Chance(30) {
 		size = r.Range(0, 6000)
 	}
+	if size == 0 && (shape == "gz-solicited" || shape == "http10-gz") {
+		size = r.Range(1, 6000)
+	}
 	body := r.Bytes(size)
 	if r.Chance(30) {
 		// compressible text
 		body = bytes.Repeat([]byte("hello gzip body "), size/16+1)[:size]
 	}
 	x.BodyHex = core.Hex(body)
-	if !headerOnly && r.Chance(25) && size > 0 {
+	if !headerOnly && size > 0 && (r.Chance(25) || shape == "gz-solicited" || shape == "http10-gz") {
 		x.Gzip = true
 		x.Fields = append(x.Fields, rig.Field{Name: "Content-Encoding", Value: core.Pick(r, []string{"gzip", "GZIP"})})
 	}
-	switch fr := core.Pick(r, []string{"cl", "cl", "chunked", "chunked", "eof"}); {
+	fr := core.Pick(r, []string{"cl", "cl", "chunked", "chunked", "eof"})
+	if shape == "http10-chunked" {
+		fr = "chunked"
+	}
+	switch {
 	case headerOnly:
 		// HEAD / 204 / 304: framing fields may still be present
-		switch r.Intn(4) {
+		k := r.Intn(4)
+		if shape == "ho-trailer" {
+			k = 2
+		}
+		switch k {
 		case 0:
 			x.Framing = "none"
 		case 1:
@@ -702,8 +760,14 @@ func genExchange(r *core.Rand, last bool) *exchange {
 		case 2:
 			x.Framing = "chunked"
 			x.Fields = append(x.Fields, rig.Field{Name: "Transfer-Encoding", Value: "chunked"})
-			if r.Chance(40) {
-				x.Fields = append(x.Fields, rig.Field{Name: "Trailer", Value: "X-Trailer-A"})
+			if r.Chance(40) || shape == "ho-trailer" {
+				// one to three names (the head writer lists them in map order), sometimes one of them twice
+				decl := core.Pick(r, []string{"X-Trailer-A", "X-Trailer-A", "X-Trailer-B, X-Trailer-A", "X-Trailer-C, X-Trailer-A, X-Trailer-B",
+					"x-trailer-b,X-Trailer-A", "X-Trailer-A, X-Trailer-A"})
+				x.Fields = append(x.Fields, rig.Field{Name: "Trailer", Value: decl})
+				if r.Chance(15) {
+					x.Fields = append(x.Fields, rig.Field{Name: "Trailer", Value: "X-Trailer-D"})
+				}
 			}
 		default:
 			x.Framing = "none"
@@ -719,7 +783,7 @@ func genExchange(r *core.Rand, last bool) *exchange {
 		for i := 0; i < k; i++ {
 			x.ChunkSizes = append(x.ChunkSizes, core.Pick(r, []int{1, 2, 7, 100, 4095, 4096, 4097, 32768, 40000}))
 		}
-		if r.Chance(35) {
+		if r.Chance(35) || shape == "http10-chunked" && r.Chance(50) {
 			x.Trailers = []rig.Field{{Name: "X-Trailer-A", Value: genVal(r)}}
 			decl := "X-Trailer-A"
 			if r.Chance(40) {
@@ -745,8 +809,20 @@ func genExchange(r *core.Rand, last bool) *exchange {
 	}
 	if x.Minor == 0 && x.Framing != "eof" && r.Chance(60) {
 		nominated = append(nominated, "keep-alive")
-	} else if x.Minor == 0 {
-		x.OriginKeep = false
+	}
+	if x.Minor == 0 {
+		// an HTTP/1.0 origin keeps the connection exactly when it says so: a nominated `Keep-Alive` field name is
+		// the keep-alive option as well (tokens are case-insensitive), and an origin that promised keep-alive and
+		// closed anyway would race with the transport's connection reuse ("server closed idle connection")
+		keep := false
+		for _, n := range nominated {
+			if strings.EqualFold(n, "keep-alive") {
+				keep = true
+			}
+		}
+		if !keep {
+			x.OriginKeep = false
+		}
 	}
 	if len(nominated) > 0 {
 		x.Fields = append(x.Fields, rig.Field{Name: core.Pick(r, []string{"Connection", "connection"}), Value: strings.Join(nominated, ", ")})
